@@ -6,7 +6,8 @@
    codes: 0 agree; 1 match bits differ; 3 specificity differs; 4 pseudo-element
    differs; 5 parser model disagrees with ParseGroup (error / structure);
    6 printer model disagrees with String(); 7 String() does not re-parse to an
-   equivalent selector; 8 the implementation panicked; 9 malformed case. *)
+   equivalent selector; 8 the implementation panicked; 9 malformed case, or the dumped tree violates
+   the invariants assumed of html.Parse (Sel.dom_wfb). *)
 From Verif Require Export Css.Sel Css.SelParse Css.SelPrint.
 From Coq Require Import List NArith ZArith Bool.
 Import ListNotations.
@@ -135,7 +136,9 @@ Fixpoint first_code (d : node) (l : list selcase) : N :=
   | c :: r => let k := sel_check d c in if N.eqb k 0 then first_code d r else k
   end.
 
-Definition check (c : case) : N := let 'CDoc d sels := c in first_code d sels.
+(* the dumped tree must satisfy the invariants the theorems assume (SelProofs.dom_wfb_sound) *)
+Definition check (c : case) : N :=
+  let 'CDoc d sels := c in if dom_wfb d then first_code d sels else 9%N.
 
 (* for replays: per selector text, the code, what the parser model returns, and the
    model's observables on the structure the implementation parsed *)
